@@ -202,7 +202,7 @@ def run1(scn):
     def V(cls, obs, msg, cycle=None):
         if len(viols) < 5:
             viols.append({"prop": "C09", "cls": cls, "observable": obs, "msg": msg, "cycle": cycle})
-    up_axil = fam in ("axil2wb", "axil_conv", "axil_sram", "axil2csr", "axil_remap") or (fam == "chain" and p["kind"] == "axil_wb_axil")
+    up_axil = fam in ("axil2wb", "axil_conv", "axil_sram", "axil2csr", "axil_remap", "axil_cdc") or (fam == "chain" and p["kind"] == "axil_wb_axil")
     xl = lambda b: b  # noqa  master byte address -> store byte address
     store = None        # ("axil", agent) / ("wb", agent) / None (DUT is the memory)
     init_b = hb
@@ -256,6 +256,14 @@ def run1(scn):
         xl = lambda b: ((b >> 2) % depth) * 4 + (b & 3)  # noqa
         init_b = lambda b: 0  # noqa
         sbus = None
+    elif fam == "axil_cdc":
+        # used by C05: the five channels cross between the clock domains "sys" (master) and "b" (slave)
+        from dsim import cdc as _cdc
+        cdc_reg = _cdc.new_registry()
+        mb = axi.AXILiteInterface(data_width=32, address_width=32)
+        sb = axi.AXILiteInterface(data_width=32, address_width=32)
+        top.submodules.dut = axi.AXILiteClockDomainCrossing(mb, sb, cd_from="sys", cd_to="b")
+        sbus = ("axil", sb)
     elif fam == "axil_remap":
         mb = axi.AXILiteInterface(data_width=32, address_width=32)
         sb = axi.AXILiteInterface(data_width=32, address_width=32)
@@ -279,7 +287,15 @@ def run1(scn):
         top.submodules.b = axi.AXILite2Wishbone(mid, wb)
         sbus = ("wb", wb)
     nops = len(scn["ops"])
-    bench = Bench(wrap_top(top), max_cycles=nops * 60 + 400, tail=8, fingerprint=False)
+    sdom = None
+    if fam == "axil_cdc":
+        sdom = "b"
+        sched = scn["schedule"]
+        bench = Bench(wrap_top(top, domains=("sys", "b")), domains=["sys", "b"], schedule=sched, overrides=_cdc.overrides(),
+                      max_cycles=nops * 120 + 600 + sum(1 for c in sched if (ord(c) - ord("a") + 1) & 1), tail=40, fingerprint=False)
+        _cdc.MetaInjector(cdc_reg, scn.get("meta")).attach(bench, {})
+    else:
+        bench = Bench(wrap_top(top), max_cycles=nops * 60 + 400, tail=8, fingerprint=False)
     # ---- master
     if up_axil:
         nbm = len(mb.w.strb)
@@ -303,7 +319,7 @@ def run1(scn):
         if fam == "axil_conv" and p["err"]:
             er = (64 * (p["dw_m"] // 8), 1 << 32)
         sa = bench.add(AXILSlave(sbus[1], name="s", awready=sc["aw"], wready=sc["w"], arready=sc["ar"], lat=sc["lat"], depth=sc["depth"],
-                                 read_data=rd, err_range=er, memory=True))
+                                 read_data=rd, err_range=er, memory=True), sdom)
     elif sbus is not None:
         wbs = sbus[1]
         shift = 0 if getattr(wbs, "addressing", "word") == "word" else 2
@@ -430,8 +446,8 @@ def run1(scn):
                 if (w_ >> (8 * (b_ & 3))) & 0xff != val:
                     V("store_content", "slave memory", "store byte %#x holds %#04x, reference %#04x" % (b_, (w_ >> (8 * (b_ & 3))) & 0xff, val))
                     break
-    stats = {"cycles": bench.cycle["sys"], "checks": checks, "nontrivial": bool(raw and stalls and ntr >= 10),
-             "faults": {"stall_cycles": stalls, "err_resp": sum(1 for x in (ma.log["b"] if up_axil else []) if x[1])},
+    stats = {"cycles": bench.cycle["sys"], "checks": checks, "nontrivial": bool(raw and (stalls or fam == "axil_cdc") and ntr >= 10),
+             "faults": dict(bench.fault_counts, stall_cycles=stalls, err_resp=sum(1 for x in (ma.log["b"] if up_axil else []) if x[1])),
              "probes": {"transactions": ntr, "read_after_write_lanes": raw, "fam_" + fam: 1}}
     return {"violations": viols, "digest": bench.digest(), "stats": stats}
 
